@@ -126,6 +126,69 @@ fn check(c: &LineCase, rec: &mut CaseRec) -> Verdict {
     }
 }
 
+/// A file of numbered lines for the analyzer, whose per-line token ranges are the
+/// same reported ranges seen through a second door.
+#[derive(Serialize, Deserialize, Debug, Clone)]
+pub struct DocCase {
+    pub lines: Vec<String>,
+}
+
+const NUMBER_SPELLINGS: &[&str] = &["5", "90", "100", "1000", "20", "007", "12345", " 30", "  4", "18446744073709551615"];
+const COMMON_STATEMENTS: &[&str] = &["return", "NEXT I", "print y", "GOSUB 1000", "REM é x", "PRINT \"éé\"; Z", "X = X + 1 : PRINT X", "DATA a, \"b\" : READ Q$"];
+
+fn doc_case() -> impl Strategy<Value = DocCase> {
+    let text = prop_oneof![
+        3 => (0..COMMON_STATEMENTS.len()).prop_map(|i| COMMON_STATEMENTS[i].to_string()),
+        2 => atom_line(8),
+        2 => super::c12::seg_line().prop_map(|l| super::c12::base_text(&l)),
+    ];
+    (prop::collection::vec(text, 1..4), prop::collection::vec((0..NUMBER_SPELLINGS.len(), 0u8..3, any::<u16>()), 2..8)).prop_map(|(texts, rows)| DocCase {
+        lines: rows.into_iter().map(|(n, gap, t)| format!("{}{}{}", NUMBER_SPELLINGS[n], " ".repeat(gap as usize), texts[idx(t, texts.len())].replace('\n', " "))).collect(),
+    })
+}
+
+/// The analyzer reports, per file line, the line-number token followed by the
+/// tokenizer's ranges; they must be exactly the ranges the per-line families verify.
+fn check_doc(c: &DocCase, rec: &mut CaseRec) -> Verdict {
+    let text = c.lines.join("\n");
+    let analyzer = match catch(|| abasic_core::SourceFileAnalyzer::analyze(text.clone())) {
+        Ok(a) => a,
+        Err(p) => return Verdict::fail("panic", format!("analyze({:?}): {}", text, p)),
+    };
+    if analyzer.token_types().len() != c.lines.len() {
+        return Verdict::fail("token-list-count", format!("{} token lists for {} lines of {:?}", analyzer.token_types().len(), c.lines.len(), text));
+    }
+    let mut compared = 0;
+    let mut repeated = false;
+    for (li, line) in c.lines.iter().enumerate() {
+        let Some((_, skip)) = abasic_core::verif_hooks::parse_line_number(line) else { continue };
+        let expect = match catch(|| tokenize_with_ranges(line, skip)) {
+            Ok(Ok(v)) => v,
+            Ok(Err(_)) => continue,
+            Err(p) => return Verdict::fail("panic", format!("{:?}: {}", line, p)),
+        };
+        if let Err((k, d)) = check_line_ranges(&line[skip..]) {
+            // the statement text on its own (ranges relative to it) must satisfy the predicate too
+            return Verdict::fail(k, d);
+        }
+        let mut want: Vec<std::ops::Range<usize>> = vec![0..skip];
+        want.extend(expect.iter().map(|(_, r)| r.clone()));
+        let got: Vec<std::ops::Range<usize>> = analyzer.token_types()[li].iter().map(|(_, r)| r.clone()).collect();
+        if got != want {
+            return Verdict::fail("analyzer-ranges-differ", format!("file line {} {:?} of {:?}: analyzer reports {:?}, the tokenizer {:?}", li, line, c.lines, got, want));
+        }
+        compared += 1;
+        if c.lines[..li].iter().any(|l| abasic_core::verif_hooks::parse_line_number(l).map(|(_, s)| l[s..] == line[skip..] && s != skip).unwrap_or(false)) {
+            repeated = true;
+        }
+    }
+    if repeated {
+        rec.class("same-statement-under-numbers-of-different-width");
+    }
+    rec.nontrivial_if(compared >= 2 && repeated, hash_str(&text));
+    Verdict::Pass
+}
+
 pub fn property() -> Property {
     let families: Vec<Box<dyn Family>> = vec![
         enum_family(
@@ -153,6 +216,7 @@ pub fn property() -> Property {
             check,
         ),
         prop_family("segment-lines", 300_000, 3_000_000, |_| super::c12::seg_line().prop_map(|l| LineCase { line: super::c12::base_text(&l) }), check),
+        prop_family("analyzer-documents", 150_000, 1_500_000, |_| doc_case(), check_doc),
         prop_family("atoms-random", 1_000_000, 10_000_000, |_| atom_line(40).prop_map(|line| LineCase { line }), check),
         prop_family(
             "raw-text",
@@ -164,7 +228,7 @@ pub fn property() -> Property {
     ];
     Property {
         id: "C13",
-        rule: "Lines over a 40-atom alphabet (keywords, identifiers incl. keyword-containing ones, numerals incl. spaced and dotted, one- and two-character operators incl. spaced, quotes, strings with multi-byte text, blanks, tabs, multi-byte and illegal characters): all atom strings up to length 3 (quick) / 5 (thorough) exhaustively, random ones up to length 40, the token-dense segment lines of C12 (identifiers over every letter, tight digit-letter-sign-digit runs, DATA chunks, REM tails), every line of the repo's programs and test sources, and raw printable/Unicode text. Oracle: ranges in bounds, on char boundaries, ordered, disjoint, only blanks between them, starting/ending on non-blanks (REM to end of line, DATA to end of line or colon), and tokenizing each range's text alone yields exactly that token; on failure the error start is in the line, on a char boundary, and the prefix tokenizes to exactly the tokens reported before the error. Non-trivial: a tokenizable line with >= 3 tokens and a blank or multi-byte character inside or adjacent to a token; distinct by text.",
+        rule: "Lines over a 40-atom alphabet (keywords, identifiers incl. keyword-containing ones, numerals incl. spaced and dotted, one- and two-character operators incl. spaced, quotes, strings with multi-byte text, blanks, tabs, multi-byte and illegal characters): all atom strings up to length 3 (quick) / 5 (thorough) exhaustively, random ones up to length 40, the token-dense segment lines of C12 (identifiers over every letter, tight digit-letter-sign-digit runs, DATA chunks, REM tails), every line of the repo's programs and test sources, and raw printable/Unicode text. analyzer-documents: files of 2-7 numbered lines drawing on 1-3 statement texts (so the same statement recurs under line numbers of different width and indentation); the ranges SourceFileAnalyzer::token_types() reports per file line must equal the line-number token followed by the tokenizer's ranges for that line. Oracle: ranges in bounds, on char boundaries, ordered, disjoint, only blanks between them, starting/ending on non-blanks (REM to end of line, DATA to end of line or colon), and tokenizing each range's text alone yields exactly that token; on failure the error start is in the line, on a char boundary, and the prefix tokenizes to exactly the tokens reported before the error. Non-trivial: a tokenizable line with >= 3 tokens and a blank or multi-byte character inside or adjacent to a token; distinct by text.",
         assumptions: vec!["the hook tokenize_with_ranges iterates the real Tokenizer with skip_bytes=0 and reports TokenizationError::string_range"],
         fuzz: Some(FuzzSpec { target: "c13_ranges", runs: 2_000_000, max_len: 256, verdict: crate::fuzz::c13_verdict }),
         families,
